@@ -50,6 +50,17 @@ func wdescrOneF(xs, ws []float64, sorted, fuzzy bool, tag string) {
 			pct[i] = s.Percentile(p)
 		}
 	})
+	// weighted Variance / StdDev are documented as not implemented: they must refuse (panic), never
+	// silently answer with the unweighted value
+	unimpl := func(f func() float64) string {
+		res := "unimpl"
+		func() {
+			defer func() { recover() }()
+			res = fb(f())
+		}()
+		return res
+	}
+	wvar, wsd := unimpl(s.Variance), unimpl(s.StdDev)
 	sf, fz := 0, 0
 	if sorted {
 		sf = 1
@@ -65,12 +76,12 @@ func wdescrOneF(xs, ws []float64, sorted, fuzzy bool, tag string) {
 	}
 	var mlog float64
 	guard("wdescr", func() { mlog = stats.Sample{Xs: lx, Weights: ws}.Mean() })
-	hx.Printf("case %d kind=wdescr xs=%s ws=%s sorted=%d fuzzy=%d lx=%s mlog=%s emlog=%s ps=%s gmean=%s ggeo=%s gmin=%s gmax=%s gpct=%s tag=%s\n",
-		id, fbList(xs), fbList(ws), sf, fz, fbList(lx), fb(mlog), fb(math.Exp(mlog)), fbList(ps), fb(mean), fb(geo), fb(mn), fb(mx), fbList(pct), tag)
+	hx.Printf("case %d kind=wdescr xs=%s ws=%s sorted=%d fuzzy=%d lx=%s mlog=%s emlog=%s wvar=%s wsd=%s ps=%s gmean=%s ggeo=%s gmin=%s gmax=%s gpct=%s tag=%s\n",
+		id, fbList(xs), fbList(ws), sf, fz, fbList(lx), fb(mlog), fb(math.Exp(mlog)), wvar, wsd, fbList(ps), fb(mean), fb(geo), fb(mn), fb(mx), fbList(pct), tag)
 	if ok {
 		// K: the float64 instance of the weighted model (Model/Stats/Weighted.lean), bit for bit
 		hx.Printf("obs %d mean=%s geo=%s min=%s max=%s pct=%s\n", id, fb(mean), fb(geo), fb(mn), fb(mx), fbList(pct))
-		hx.Printf("sobs %d mean=ok geo=ok bounds=ok pct=ok\n", id)
+		hx.Printf("sobs %d mean=ok geo=ok bounds=ok pct=ok unimpl=ok\n", id)
 	}
 	id++
 }
